@@ -48,6 +48,11 @@ func (m MIDIWriter) Write(w midix.Writer, instances []op.Instance) error {
 		if err := instance.Validate(); err != nil {
 			return fmt.Errorf("%w: instance[%d]", err, i)
 		}
+		if k := instance.Key; k != nil {
+			if _, err := op.NewScale(*k); err != nil {
+				return fmt.Errorf("%w: instance[%d]", err, i)
+			}
+		}
 
 		args.update(instance)
 		// apply control changes
